@@ -258,7 +258,20 @@ void explore14(Options const& o, std::vector<Shim*> const& shims, std::vector<Sh
     run(P, P, ob);
     run(W, Ps, ob | (1ull << 52));
     run(Ps, W, ob | (2ull << 52));
-    run(W2, W2, ob | (3ull << 52));       // both operands next to the integer square roots of 2^61, 2^62, 2^63: where the sum of two squares wraps
+    run(W2, W2, ob | (3ull << 52));
+    // worst-case alignment for a relative-error clause: maximal truncation loss (every bit below the retained ones set: operands one raw
+    // unit below a multiple of 2^(16+s)) combined with minimal significance (the larger operand in the lowest 1/32 of its binade),
+    // as a dense 2-D grid in every binade 2^14 .. 2^30: hi = (16384 + a) * 2^(16+s) - 1, lo = b * 2^(16+s) - 1
+    {
+    std::vector<int> SH; for( int sh = 0; sh <= 16; sh += (th ? 1 : 2) ) SH.push_back(sh);
+    for( int sh : SH )
+      {
+      std::vector<i64> HI, LO;
+      for( i64 a = 0; a < 512; a += (th ? 1 : 2) ) HI.push_back(((16384 + a) << (16 + sh)) - 1);
+      for( i64 b = 2304; b <= 6144; b += (th ? 1 : 3) ) LO.push_back((b << (16 + sh)) - 1);
+      run(HI, LO, ob | (4ull << 52) | (static_cast<u64>(sh) << 44));
+      }
+    }       // both operands next to the integer square roots of 2^61, 2^62, 2^63: where the sum of two squares wraps
     // carry-boundary pairs: 16-bit leading parts m1, m2 with m1 + m2 just above 2^16 (the sum of the operands crosses a power of
     // two), tails all ones or all zeros, at every magnitude: the inputs on which a clz-based choice of the scaling shift changes
     {
